@@ -62,6 +62,16 @@ def main():
     for k in range(n):
         nm, p, f, meta = case(ck.rng, k)
         pairs.append(("p.patch", p, "a.go", f)); names.append(nm); metas.append(meta)
+    lone = [i for i, f in enumerate(enginegen.EXPR_FAMILIES) if f[0] in ("unwrap-lone-mv", "drop-mv", "binary-zero", "method-to-func")]
+    for k in range(800 if thorough else 160):
+        nm, p, f, meta = enginegen.grammar_case(ck.rng, lone[k % len(lone)] + len(enginegen.EXPR_FAMILIES) * (k // len(lone)))
+        pairs.append(("p.patch", p, "a.go", f)); names.append(nm); metas.append(meta)
+    for k in range(800 if thorough else 160):
+        nm, p, f, meta = enginegen.stmt_case(ck.rng, k)
+        pairs.append(("p.patch", p, "a.go", f)); names.append(nm); metas.append(meta)
+    for k in range(300 if thorough else 60):
+        nm, p, f, meta = enginegen.chain_case(ck.rng, k)
+        pairs.append(("p.patch", p, "a.go", f)); names.append(nm); metas.append(meta)
     res = enginecorr.run(pairs)
     for name, pair, o, meta in zip(names, pairs, res, metas):
         ck.count((pair[1], pair[3]), nontrivial=not o["skipped"])
